@@ -1,5 +1,6 @@
 """C02 — results account for every input byte (DESIGN §4.2)."""
 from .common import *
+from .common import _strip_refs
 from . import layout
 
 LEVEL = "other"
@@ -213,6 +214,8 @@ def run(ctx, env):
                 for blk, t, c in cands:
                     arg = peel(an.op(body, t["args"][-1]))
                     same = canon(arg) == canon(src)
+                    if not same:
+                        same = same_slice_value(an, prog, body, blk, t, b)
                     oks.append(same)
                     why = "remaining = to_vec(%s); dispatcher input = %s" % (canon(src)[:200], canon(arg)[:200])
                 ok = bool(oks) and all(oks)
@@ -253,6 +256,33 @@ def run(ctx, env):
         src = peel(cexpr[3][0])
         if find(src, lambda n: n == ("arg", 2)):
             entry_guard = (cb, sw, tt, ff)
+    if entry_guard is None:
+        # `while let Some(rest) = buf.get(off..).filter(|r| !r.is_empty())`: the emptiness test sits in the closure
+        # of Option::filter; the None edge of the match is the empty-input edge
+        for blk0 in sorted(body.live_blocks()):
+            t0 = body.term(blk0)
+            if t0["k"] != "switch":
+                continue
+            e0 = peel(an.op(body, t0["op"]))
+            if e0[0] != "discr":
+                continue
+            f0 = peel(e0[1])
+            if not (f0[0] == "call" and f0[2] is not None and f0[2].nsyn == "std::option::Option::filter" and len(f0[3]) == 2):
+                continue
+            if not find(f0[3][0], lambda n: n == ("arg", 2)):
+                continue
+            clo = peel(f0[3][1], identity=(), casts=False)
+            if clo[0] != "closure":
+                continue
+            res, neg0 = strip_not(an.simp(an.interp.apply(clo, [("sym", "r")])))
+            res = peel(res)
+            if res[0] == "call" and res[2] is not None and (res[2].npath in IS_EMPTY or res[2].nsyn in IS_EMPTY) and neg0 and find(res, lambda n: n == ("sym", "r")):
+                some_t = [tb for v, tb in t0["targets"] if v == 1]
+                none_t = [tb for v, tb in t0["targets"] if v == 0]
+                st_ = some_t[0] if some_t else t0["otherwise"]
+                nt_ = none_t[0] if none_t else t0["otherwise"]
+                if st_ != nt_:
+                    entry_guard = (blk0, blk0, nt_, st_)
     if entry_guard is None:
         ctx.ob("R2.7", body.path, "empty-guard", False, "no `is_empty()` test on the input slice found in parse_bytes")
     else:
@@ -376,6 +406,36 @@ def wrappers_rule(ctx, prog, an):
     ctx.floor("R2.5", "wrappers", "version wrappers", n, 4)
 
 
+def same_slice_value(an, prog, body, call_blk, call_t, err_blk):
+    """The slice copied into the Error (`x.to_vec()`) and the slice handed to the dispatcher are the same value:
+    decided by the forward equal/tail facts of nfsa/suffix.py on MIR locals (a private helper was inlined, so the two
+    are different locals holding copies of one another)."""
+    from ..suffix import Suffix, is_slice
+    if not hasattr(an, "_suffix"):
+        an._suffix = Suffix(prog)
+    sf = an._suffix
+    a = call_t["args"][-1]
+    if a.get("k") not in ("copy", "move") or a["place"].get("p"):
+        return False
+    y = a["place"]["l"]
+    facts = sf.facts(body)
+    for blk2, t2, c2 in body.calls():
+        if c2 is None or not (c2.npath.endswith("<impl [T]>::to_vec") or c2.nsyn in ("std::borrow::ToOwned::to_owned", "std::convert::From::from", "std::convert::Into::into")):
+            continue
+        if not t2["args"] or not is_slice((t2.get("argtys") or [""])[0]):
+            continue
+        if not (blk2 == err_blk or body.reaches(blk2, err_blk)) or not body.reaches(call_blk, blk2):
+            continue
+        x = sf._oplocal(t2["args"][0])
+        st = facts["at_term"].get(blk2)
+        if x is None or st is None:
+            continue
+        sx, sy = st.get(("S", x)), st.get(("S", y))
+        if sx and sy and sx != "ALL" and sy != "ALL" and (y in sx or x in sy or (set(sx) & set(sy) and any(z in sx and z in sy and x in (st.get(("S", z)) or ()) and y in (st.get(("S", z)) or ()) for z in set(sx) & set(sy) if not isinstance(z, tuple)))):
+            return True
+    return False
+
+
 def branch_conditions_rule(ctx, an, body, rid):
     """Every branch of the packet loop is decided by an emptiness test of the current input, an enum discriminant or
     a drop flag: nothing else (contents, lengths, counters) can end the loop or skip an element."""
@@ -403,6 +463,24 @@ def feed_back_rule(ctx, prog, an, body, pcs, rid="R2.5", support=True):
                 ctx.ob(rid, body.path, "input:entry-slice", True, "dispatcher input is the caller's buffer", site=body.line(blk))
                 continue
             ok = False
+            tb = tail_by_length(an, m)
+            if tb is not None:
+                # offset cursor: the last `remaining.len()` bytes of the buffer (or of the slice just parsed) - the
+                # same bytes as the copied remainder, since every version wrapper returns a copy of its parser's
+                # remainder (tail-is-parser-remainder below) and a parser's remainder is a tail of its input
+                S, R = tb
+                Rp = peel(R)
+                if Rp[0] == "field" and Rp[2] == "remaining" and peel(Rp[1])[0] == "ok":
+                    src = peel(peel(Rp[1])[1])
+                    if src[0] == "cycle":
+                        src = an.slicer(body).single_call_def(src[1]) or src
+                    if src[0] == "call" and src[2] is not None and src[2].local and any(src[2].path == cc.path for _, _, cc in pcs):
+                        U = _strip_refs(src[3][-1]) if src[3] else None
+                        base_ok = S == ("arg", 2) or (U is not None and canon(U) == canon(S)) or S[0] == "cycle" or (S[0] == "phi" and any(peel(x) == ("arg", 2) for x in S[1]))
+                        if base_ok:
+                            ctx.ob(rid, body.path, "input:fed-back-remainder", True,
+                                   "dispatcher input member = the last `remaining.len()` bytes of %s, remaining = Ok(parse result).remaining: the parser's own remainder, read from the caller's buffer" % canon(S)[:60], site=body.line(blk))
+                            continue
             if m[0] == "field" and m[2] == "remaining":
                 base = peel(m[1])
                 if base[0] == "ok":
@@ -433,7 +511,11 @@ def feed_back_rule(ctx, prog, an, body, pcs, rid="R2.5", support=True):
             for rl in roots:
                 for d in sl.defs.get(rl, []):
                     if d[1] in between and not (d[0] == "call" and d[1] == blk):
-                        redefs.append((rl, d[1]))
+                        # path-sensitive: the Error block must be reachable from the redefinition without going
+                        # through the dispatcher call again (a private `enum Step { Parsed{rest}, Failed(..) }`
+                        # joins the arms in the CFG, but a Parsed value never reaches the Failed arm)
+                        if eb in body.reachable_cp(d[1], without_blocks={blk}):
+                            redefs.append((rl, d[1]))
             ctx.ob("R2.2", body.path, "input-not-redefined-before-error:bb-kind-%s" % error_kind(an, body, s), not redefs,
                    "the dispatcher's input local(s) %s are reassigned between the call and the Error construction: %s" % (sorted(roots), redefs),
                    site=site(s["span"]))
@@ -447,10 +529,13 @@ def underlying_locals(sl, l, depth=0):
     for d in sl.defs.get(l, []):
         if d[0] == "assign":
             rv = d[3]
-            if rv["k"] == "ref":
+            # only through whole-value copies / reborrows: `(_16 as Parsed).rest` is a field of another value, and
+            # assigning that other value (an enum carrying the slice) is not a redefinition of the slice local
+            plain = lambda pl: all(e["k"] == "deref" for e in pl.get("p", []))
+            if rv["k"] == "ref" and plain(rv["place"]):
                 out |= underlying_locals(sl, rv["place"]["l"], depth + 1)
-            elif rv["k"] == "use" and rv["op"]["k"] in ("copy", "move"):
+            elif rv["k"] == "use" and rv["op"]["k"] in ("copy", "move") and plain(rv["op"]["place"]):
                 out |= underlying_locals(sl, rv["op"]["place"]["l"], depth + 1)
-            elif rv["k"] == "copyforderef":
+            elif rv["k"] == "copyforderef" and plain(rv["place"]):
                 out |= underlying_locals(sl, rv["place"]["l"], depth + 1)
     return out
